@@ -436,6 +436,52 @@ func (w *World) probeCorrupt(ev Event) bool {
 			try(fmt.Sprintf("metadata decoder on %x", mu), spec.P("C14"), func() { _ = (&esdt.MetaData{}).Unmarshal(mu) })
 		}
 	}
-	_ = big.NewInt
+	// structured variants of stored token values (the "absent and empty fields" and sign corners the
+	// histories themselves do not store): each is encoded by the production codec and compared
+	// with the reference encoder, Size(), a second Marshal and the decode round trip
+	cd := w.Nodes[0].Codec
+	for _, e := range vals {
+		if len(e.k) <= len(spec.TokenPrefix) || string(e.k[:len(spec.TokenPrefix)]) != spec.TokenPrefix {
+			continue
+		}
+		t, err := spec.DecodeToken(e.v)
+		if err != nil {
+			continue
+		}
+		variants := []*spec.Token{}
+		v1 := spec.CloneToken(t)
+		v1.Meta = &spec.Meta{} // present but empty
+		v2 := spec.CloneToken(t)
+		if v2.Value != nil {
+			v2.Value.Neg(v2.Value)
+		}
+		v3 := spec.CloneToken(t)
+		v3.Value = nil
+		v4 := spec.CloneToken(t)
+		v4.Properties, v4.Reserved = []byte{byte(r.Intn(256)), 0}, []byte{byte(r.Intn(256))}
+		v5 := spec.CloneToken(t)
+		if v5.Meta != nil {
+			v5.Meta.URIs = append(v5.Meta.URIs, []byte{}, []byte("u"))
+			v5.Meta.Royalties = uint32(r.Intn(1 << 20))
+			v5.Meta.Nonce = uint64(r.Int63())<<1 | 1
+		}
+		v6 := spec.CloneToken(t)
+		v6.Type = uint32(r.Intn(1 << 16))
+		v6.Value = new(big.Int).Lsh(big.NewInt(int64(1+r.Intn(255))), uint(8*r.Intn(40)))
+		variants = append(variants, v1, v2, v3, v4, v5, v6)
+		for _, vt := range variants {
+			vt := vt
+			w.Stats.Faults["structured-value-variant"]++
+			try(fmt.Sprintf("token codec on variant %v", vt), spec.P("C14"), func() {
+				obj := ESDTFromToken(vt)
+				b, err := obj.Marshal()
+				if err != nil {
+					w.violate(spec.Violation{Props: spec.P("C14"), Clause: "codec", Detail: fmt.Sprintf("Marshal refused %v: %v", vt, err)})
+					return
+				}
+				cd.CheckEncoding(obj, b)
+			})
+		}
+	}
 	return true
 }
